@@ -33,6 +33,7 @@ R_wide == {[k \in 1..11 |-> Str(<<96 + k>>)], [k \in 1..10 |-> Str(<<107 - k>>)]
 \* None and the empty string are different cells
 V3E   == {S(97), Str(<<>>), None}
 R_2x2E == [1..2 -> V3E]
+R_2x2e == [1..2 -> {S(97), Str(<<>>)}]        \* empty strings but no None (string concatenation with None is an error in Python only)
 \* one record, repeated: tables of up to 12 records for two-digit TOP / LIMIT values
 R_one == {<<S(97), S(98)>>}
 R_w1   == [1..1 -> V2]
@@ -140,7 +141,7 @@ Q_C05join == {[BaseQ EXCEPT !.kind = "update", !.assign = asg, !.where = w, !.jo
 ItemsHdr == {E(Fa(1)), E(Fa(3)), E(NRx), E(<<"cat", Fa(1), L(120)>>), <<"star">>, <<"astar">>,
              <<"as", E(Fa(2)), "zz">>, <<"as", E(<<"cat", Fa(1), Fa(2)>>), "Al_1">>, <<"unnest", <<"flds", <<1, 2>>>>>>,
              \* commas and brackets inside one item: a call, a literal, nested brackets; an alias after a literal that spells " as "
-             E(<<"bmax", Fa(1), Fa(2)>>), E(<<"lit", <<44, 91, 40>>>>), E(<<"idx0", Fa(2), Fa(1)>>), <<"as", E(<<"idx0", Fa(1), L(93)>>), "ix">>,
+             E(<<"bmax", Fa(1), Fa(2)>>), E(<<"lit", <<44, 91, 40>>>>), E(<<"idx0", Fa(2), Fa(1)>>), <<"as", E(<<"idx0", Fa(1), L(93)>>), "ix">>, E(<<"dsub", Fa(2), Fa(1)>>), <<"as", E(<<"dsub", Fa(1), L(125)>>), "dx">>,
              <<"as", E(<<"cat", Fa(1), <<"lit", <<32, 97, 115, 32, 113>>>> >>), "asx">>, <<"agg", "COUNT", <<"int", 1>> >>}
 \* (aggregates in the header lists need every other item to be constant per group: only lists the engine accepts are generated)
 HdrListOk(s) == (\E k \in 1..Len(s) : IsAggItem(s[k])) => (\A k \in 1..Len(s) : IsAggItem(s[k]) \/ s[k][1] = "as" \/ (s[k][1] = "e" /\ s[k][2][1] = "lit"))
@@ -196,7 +197,9 @@ Q_C13 == {[BaseQ EXCEPT !.items = <<E(Fa(1)), E(Fa(2))>>],
           \* TOP / LIMIT bound the OUTPUT (after dedup / aggregation), not the input scan: a front-end must not push them into its data source
           [BaseQ EXCEPT !.items = <<E(Fa(2))>>, !.distinct = "uniq", !.hastop = TRUE, !.top = 2],
           [BaseQ EXCEPT !.items = <<E(Fa(2))>>, !.distinct = "count", !.hastop = TRUE, !.top = 1],
-          [BaseQ EXCEPT !.items = <<Agg("COUNT", <<"int", 1>>)>>, !.hastop = TRUE, !.top = 1]}
+          [BaseQ EXCEPT !.items = <<Agg("COUNT", <<"int", 1>>)>>, !.hastop = TRUE, !.top = 1],
+          \* a falsy value that is not None (0) is a value: written as "0" by every front-end, no None warning
+          [BaseQ EXCEPT !.items = <<E(Fa(1)), E(<<"mul", NRx, <<"int", 0>> >>)>>]}
 Q_C13join == {[BaseQ EXCEPT !.items = <<E(Fa(1)), E(Fb(2))>>, !.join = j, !.jkeys = << <<1, 1>> >>] : j \in {"inner", "left", "strict"}}
              \cup {[BaseQ EXCEPT !.items = << <<"star">> >>, !.join = "inner", !.jkeys = << <<2, 1>> >>, !.order = <<Fb(2)>>],
                    [BaseQ EXCEPT !.kind = "update", !.assign = << <<2, Fb(2)>> >>, !.join = "left", !.jkeys = << <<1, 1>> >>]}
@@ -311,7 +314,7 @@ Q_C03keys == {[BaseQ EXCEPT !.items = <<Agg("MAX", Fa(2)), Agg("COUNT", <<"int",
 \* numeric strings of different widths and signs: their text order differs from their numeric order (9 < 10 < 100, -5 < 9)
 R_numw == {<<k, v>> : k \in {S(97)}, v \in {D(57), Str(<<49, 48>>), Str(<<49, 48, 48>>), Str(<<45, 53>>)}}
 Q_C03med == {[BaseQ EXCEPT !.items = <<Agg(f, Fa(2)), E(Fa(1))>>, !.hasgroup = g # <<>>, !.group = g] :
-               f \in {"MEDIAN", "VARIANCE", "AVG", "MIN", "SUM"}, g \in {<<>>, <<Fa(1)>>}}
+               f \in {"MEDIAN", "VARIANCE", "AVG", "MIN", "MAX", "SUM"}, g \in {<<>>, <<Fa(1)>>}}
 Q_C03bad == {[BaseQ EXCEPT !.items = << <<"aggplus", "MAX", Fa(2)>>, E(Fa(1))>>, !.hasgroup = TRUE, !.group = <<Fa(1)>>],
              [BaseQ EXCEPT !.items = << <<"aggattr", "MIN", Fa(2)>> >>],
              [BaseQ EXCEPT !.items = <<E(Fa(1)), <<"aggattr", "MAX", Fa(1)>> >>, !.where = <<"eq", Fa(1), L(98)>>],
